@@ -1,0 +1,29 @@
+//go:build verif
+
+package neo4j
+
+import (
+	"expvar"
+
+	"github.com/specterops/dawgs/graph"
+)
+
+// Verification hook for the /verif C12 check ("entity change tracking records exactly the delta ... and the drivers
+// persist it"). Compiled only with -tags verif; nothing in the production build refers to it. Read-only: it exposes
+// the two pure statement builders of the batch update paths so that the check can hand them several nodes with
+// different deltas and look at the statements and parameters they are grouped into.
+//
+// Published through expvar (looked up by name) so that the external harness builds with and without this file.
+func init() {
+	expvar.Publish("dawgs.verif.c12.neo4jNodeUpdateBatch", expvar.Func(func() any {
+		return func(nodes []*graph.Node) ([]string, []map[string]any) {
+			return cypherBuildNodeUpdateQueryBatch(nodes)
+		}
+	}))
+
+	expvar.Publish("dawgs.verif.c12.neo4jNodeUpdateByBatch", expvar.Func(func() any {
+		return func(updates []graph.NodeUpdate) ([]string, []map[string]any) {
+			return cypherBuildNodeUpdateQueryByBatch(updates)
+		}
+	}))
+}
